@@ -871,3 +871,115 @@ Proof.
   intros H. destruct (sites_ok_sound ss H) as [H1 H2].
   split; [intros s Hs; exact (site_ok_sound s (H1 s Hs))|exact H2].
 Qed.
+
+(** * 7. From the configuration: every configured entry that names the operation is consulted *)
+
+Definition cfg_ok (uses : list cfg_use) : bool :=
+  forallb cfg_use_transparent uses &&
+  (length (filter (fun u => match u with CfgRegisterLoop _ _ => true | _ => false end) uses) =? 1)%nat.
+
+Lemma cfg_ok_plugins uses es : cfg_ok uses = true -> cfg_plugins uses es = Some (number_from 1 es).
+Proof. unfold cfg_ok, cfg_plugins. intros ->. reflexivity. Qed.
+
+Lemma number_from_nth es : forall k i e,
+  nth_error es i = Some e -> In (k + Z.of_nat i, snd e) (number_from k es).
+Proof.
+  induction es as [|x r IH]; intros k i e H; [destruct i; discriminate|].
+  destruct i as [|i]; cbn [nth_error] in H.
+  - injection H as ->. left. f_equal. cbn. lia.
+  - right. specialize (IH (k + 1) i e H). replace (k + Z.of_nat (S i)) with (k + 1 + Z.of_nat i) by lia. exact IH.
+Qed.
+
+Lemma number_from_length es : forall k, length (number_from k es) = length es.
+Proof. induction es as [|x r IH]; intros k; cbn; [reflexivity|]. now rewrite IH. Qed.
+
+(* names play no part: the registered plugins depend on the positions and the ops only *)
+Lemma number_from_names_irrelevant es es' : forall k,
+  map snd es = map snd es' -> number_from k es = number_from k es'.
+Proof.
+  revert es'. induction es as [|x r IH]; intros [|y r'] k H; try discriminate; [reflexivity|].
+  cbn in H. injection H as H1 H2. cbn. rewrite H1. f_equal. now apply IH.
+Qed.
+
+Lemma registered_for_in o ps p :
+  In p ps -> supports p (op_value o) = true -> In (fst p) (registered_for o ps).
+Proof. intros Hin Hs. unfold registered_for. apply in_map. apply filter_In. auto. Qed.
+
+Lemma consulted_prefix_all os : forallb is_accept os = true -> consulted_prefix os = os.
+Proof.
+  induction os as [|o r IH]; [reflexivity|]. cbn. intros H. apply andb_true_iff in H. destruct H as [H1 H2].
+  rewrite H1. now rewrite IH.
+Qed.
+
+Lemma map_fst_combine_same {A B} (l : list A) : forall (l' : list B),
+  length l' = length l -> map fst (combine l l') = l.
+Proof.
+  induction l as [|x l IH]; intros [|y l'] H; try discriminate; [reflexivity|].
+  cbn. f_equal. apply IH. now injection H.
+Qed.
+
+(* when the operation went through (or is a notification), the consulted plugins are ALL the registered ones *)
+Lemma spec_all_consulted o ps script c :
+  (is_gating o = false \/ exists c', fst (spec_sem o ps script c) = ROk c') ->
+  map (fun x : consult => fst (fst x)) (snd (spec_sem o ps script c)) = registered_for o ps.
+Proof.
+  unfold spec_sem. intros H. destruct (is_gating o) eqn:Eg.
+  - destruct H as [H|[c' H]]; [discriminate|].
+    destruct (run_chain (map (fun i => classify (script i)) (registered_for o ps)) c) as [r seen] eqn:E.
+    cbn [fst snd] in *. subst r. rewrite map_map. cbn [fst].
+    assert (Hok : fst (run_chain (map (fun i => classify (script i)) (registered_for o ps)) c) = ROk c') by now rewrite E.
+    apply chain_ok_iff in Hok. destruct Hok as [Hall _].
+    pose proof (run_chain_seen_length (map (fun i => classify (script i)) (registered_for o ps)) c) as Hl.
+    rewrite E in Hl. cbn [snd] in Hl. rewrite (consulted_prefix_all _ Hall), map_length in Hl.
+    change (fun x : Z * content => fst x) with (@fst Z content). now apply map_fst_combine_same.
+  - unfold run_notify. cbn [snd]. rewrite map_map. cbn [fst].
+    change (fun x : Z * content => fst x) with (@fst Z content).
+    apply map_fst_combine_same. now rewrite !map_length.
+Qed.
+
+Section Configured.
+  Variables (uses : list cfg_use) (ops : list (string * string)) (fields : list string)
+            (reg : list reg_entry) (ms : list method_ir).
+  Hypothesis Hcfg : cfg_ok uses = true.
+  Hypothesis Hok : table_ok ops fields reg ms = true.
+
+  (* the chain a configuration yields is the chain over its entries, identified by position *)
+  Theorem cfg_sem_spec o es script c :
+    cfg_sem uses ops fields reg ms o es script c = spec_sem o (number_from 1 es) script c.
+  Proof. unfold cfg_sem. rewrite (cfg_ok_plugins uses es Hcfg). apply (table_ok_sound _ _ _ _ Hok). Qed.
+
+  (* every configured entry whose ops include the operation was consulted whenever the operation
+     went through (and always, for the CloseProxy notification) -- names arbitrary, duplicates and
+     empty names included *)
+  Theorem cfg_every_entry_consulted o es script c :
+    (is_gating o = false \/ exists c', fst (cfg_sem uses ops fields reg ms o es script c) = ROk c') ->
+    forall i e, nth_error es i = Some e ->
+      existsb (String.eqb (op_value o)) (snd e) = true ->
+      In (1 + Z.of_nat i) (map (fun x : consult => fst (fst x)) (snd (cfg_sem uses ops fields reg ms o es script c))).
+  Proof.
+    rewrite cfg_sem_spec. intros H i e Hn Hs. rewrite (spec_all_consulted _ _ _ _ H).
+    apply (registered_for_in o _ (1 + Z.of_nat i, snd e)); [now apply number_from_nth|exact Hs].
+  Qed.
+
+  (* ... in configuration order *)
+  Theorem cfg_consulted_in_order o es script c :
+    exists k, map (fun x : consult => fst (fst x)) (snd (cfg_sem uses ops fields reg ms o es script c))
+              = firstn k (registered_for o (number_from 1 es)).
+  Proof. rewrite cfg_sem_spec. apply spec_consulted_is_prefix. Qed.
+
+  (* one refusing entry anywhere in the configuration refuses the operation *)
+  Theorem cfg_fail_closed o es script c c' i e :
+    is_gating o = true -> nth_error es i = Some e ->
+    existsb (String.eqb (op_value o)) (snd e) = true ->
+    is_accept (classify (script (1 + Z.of_nat i))) = false ->
+    fst (cfg_sem uses ops fields reg ms o es script c) <> ROk c'.
+  Proof.
+    intros Hg Hn Hs Ha. rewrite cfg_sem_spec. unfold spec_sem. rewrite Hg.
+    destruct (run_chain (map (fun i0 => classify (script i0)) (registered_for o (number_from 1 es))) c) as [r seen] eqn:E.
+    cbn [fst]. intros ->.
+    assert (Hr : fst (run_chain (map (fun i0 => classify (script i0)) (registered_for o (number_from 1 es))) c) = ROk c') by now rewrite E.
+    revert Hr. apply (fail_closed _ (classify (script (1 + Z.of_nat i)))); [|exact Ha].
+    apply in_map_iff. exists (1 + Z.of_nat i). split; [reflexivity|].
+    apply (registered_for_in o _ (1 + Z.of_nat i, snd e)); [now apply number_from_nth|exact Hs].
+  Qed.
+End Configured.
